@@ -199,6 +199,7 @@ class SetMembersMixin:
         parts = _get_parts(key)
         if len(parts) == 1:
             name = parts[0]
+            aliases: tuple[Alias, ...] = ()
             if name in self.members:  # type: ignore[attr-defined]
                 member = self.members[name]  # type: ignore[attr-defined]
                 if not member.is_alias:
@@ -212,14 +213,17 @@ class SetMembersMixin:
                             if value.is_module and value.filepath != member.filepath:
                                 with suppress(ValueError):
                                     value = merge_stubs(member, value)  # type: ignore[arg-type]
-                    for alias in member.aliases.values():
-                        with suppress(AliasResolutionError, CyclicAliasError):
-                            alias.target = value
+                    aliases = tuple(member.aliases.values())
             self.members[name] = value  # type: ignore[attr-defined]
             if self.is_collection:  # type: ignore[attr-defined]
                 value._modules_collection = self  # type: ignore[union-attr]
             else:
                 value.parent = self  # type: ignore[assignment]
+            # Re-target the aliases of the replaced member once the value is attached:
+            # the target setter reads `value.path`, which is only complete (and, for an alias, only defined) then.
+            for alias in aliases:
+                with suppress(AliasResolutionError, CyclicAliasError):
+                    alias.target = value
         else:
             self.members[parts[0]].set_member(parts[1:], value)  # type: ignore[attr-defined]
 
